@@ -65,7 +65,7 @@ def upd(ctx, cname, **assume):
 def support(ctx, cname):
     site = HDMQ + ".update"
     tr = upd(ctx, cname)
-    bh0 = [e for e in q.find_calls(tr, HDMQ + "._build_histograms") if e.func.qualname == site]
+    bh0 = [e for e in q.find_calls(tr, HDMQ + "._build_histograms") if q.stack_has(e, site)]
     lo_name = hi_name = None
     if bh0 and len(bh0[0].args) >= 3:
         for k, which in ((1, "lo"), (2, "hi")):
@@ -75,7 +75,7 @@ def support(ctx, cname):
                     lo_name = a_[2][1:]
                 else:
                     hi_name = a_[2][1:]
-    app = [e for e in tr.of("localmut") if e.how == "method:append" and e.name in (lo_name, hi_name) and e.name is not None and e.func.qualname == site]
+    app = [e for e in tr.of("localmut") if e.how == "method:append" and e.name in (lo_name, hi_name) and e.name is not None and q.stack_has(e, site)]
     ctx.anchor(site, "per-feature range collected in a loop [%s]" % cname, len(app) == 2, "found %d" % len(app))
     for e in app:
         v = e.value.single_atom()[1][0].single_atom()
@@ -92,7 +92,7 @@ def support(ctx, cname):
         ctx.ob("AGREE-support", site, "%s edges span reference and batch of this update, same feature [%s]" % ("lower" if e.name == lo_name else "upper", cname), ok and both,
                "bin edges must be computed from the concatenation of the current reference and the current batch: %s" % q.short(e.value, 160), e)
     bh = q.find_calls(tr, HDMQ + "._build_histograms")
-    bh = [e for e in bh if e.func.qualname == site]
+    bh = [e for e in bh if q.stack_has(e, site)]
     # idiom-independent necessary condition: the bin edges depend on the batch of this call AND on the current reference -
     # directly, or through attributes that are kept coherent with the reference (re-stored wherever the reference is)
     for e in bh:
@@ -114,7 +114,7 @@ def support(ctx, cname):
     if len(bh) == 2:
         ok = bh[0].args[1:] == bh[1].args[1:] and _root_attr(bh[0].args[0]) == "reference" and T.mentions(bh[1].args[0], lambda a: a == ("param", "X"))
         ctx.ob("AGREE-support", site, "both histograms use the same bin edges [%s]" % cname, ok, "", bh[0])
-        mm = [e for e in tr.of("local") if e.name in ("mins", "maxes") and e.func.qualname == site]
+        mm = [e for e in tr.of("local") if e.name in ("mins", "maxes") and q.stack_has(e, site)]
         okl = all((a.single_atom() or ("",))[0] == "loopvar" for a in bh[0].args[1:3])
         ctx.ob("AGREE-support", site, "the edges passed are the ranges collected in this update [%s]" % cname, okl, q.short(bh[0].args[1], 80), bh[0])
     # _build_histograms
@@ -202,23 +202,23 @@ def distance(ctx, cname):
     tr = upd(ctx, cname)
     cd = tr.stores("current_distance")
     ctx.anchor(site, "current_distance stored [%s]" % cname, len(cd) == 1, "")
-    dyn = [e for e in tr.calls() if e.callee[0] == "dynamic" and e.func.qualname == site]
+    dyn = [e for e in tr.calls() if e.callee[0] == "dynamic" and q.stack_has(e, site)]
     ok = len(dyn) == 1
     if ok:
         a0, a1 = dyn[0].args[0].single_atom(), dyn[0].args[1].single_atom()
         ok = (a0 is not None and a1 is not None and a0[0] == "sub" and a1[0] == "sub" and a0[2] == a1[2] and (a0[2].single_atom() or ("",))[0] == "idx"
               and dyn[0].callee[1] == A("distance_function"))
         # first operand is the reference histogram, second the batch histogram
-        bh = [e for e in q.find_calls(tr, HDMQ + "._build_histograms") if e.func.qualname == site]
+        bh = [e for e in q.find_calls(tr, HDMQ + "._build_histograms") if q.stack_has(e, site)]
         ok = ok and len(bh) == 2
     ctx.ob("FRM", site, "per-feature distance between reference and batch histograms of the same feature [%s]" % cname, ok, "", dyn[0] if dyn else None)
     if cd and dyn:
         v = cd[0].value
         lv = [a for a in T.atoms_of(v, "loopvar") if a[2].startswith("$")]
         acc_name = lv[0][2][1:] if len(lv) == 1 else None
-        tot = [e for e in tr.of("local") if e.name == acc_name and e.aug is not None and e.func.qualname == site]
+        tot = [e for e in tr.of("local") if e.name == acc_name and e.aug is not None and q.stack_has(e, site)]
         ok = len(tot) == 1 and tot[0].aug == ("Add", dyn[0].result)
-        init = [e for e in tr.of("local") if e.name == acc_name and e.aug is None and e.func.qualname == site]
+        init = [e for e in tr.of("local") if e.name == acc_name and e.aug is None and q.stack_has(e, site)]
         ok = ok and len(init) == 1 and init[0].value == const(0)
         dim = A("_input_col_dim")
         for x in reversed(tr.events[: cd[0].seq]):
@@ -231,13 +231,13 @@ def distance(ctx, cname):
     if dyn:
         pf = tr.stores("_prev_feature_distances")
         lst = (pf[0].value.single_atom() or ("", "", ""))[2][1:] if pf and (pf[0].value.single_atom() or ("",))[0] == "loopvar" else None
-        apx = [e for e in tr.of("localmut") if e.how == "method:append" and e.name == lst and e.func.qualname == site]
-        init = [e for e in tr.of("local") if e.name == lst and e.aug is None and e.func.qualname == site]
+        apx = [e for e in tr.of("localmut") if e.how == "method:append" and e.name == lst and q.stack_has(e, site)]
+        init = [e for e in tr.of("local") if e.name == lst and e.aug is None and q.stack_has(e, site)]
         ok = lst is not None and len(apx) == 1 and apx[0].value == atom(("tuple", (dyn[0].result,))) and set(map(id, apx[0].pc)) == set(map(id, dyn[0].pc)) \
             and len(init) == 1 and init[0].value == atom(("list", ()))
         ctx.ob("FRM", site, "the list of per-feature distances holds one distance per feature, in feature order [%s]" % cname, ok, "", apx[0] if apx else None)
     # the epsilon of this batch is what is recorded in epsilon_values[total_batches]
-    ce = [e for e in tr.mutations("epsilon_values") if e.how == "setitem" and e.func.qualname == site]
+    ce = [e for e in tr.mutations("epsilon_values") if e.how == "setitem" and q.stack_has(e, site)]
     ok = len(ce) == 1 and cd and T.same(ce[0].value, T.mk_abs(cd[0].value - A("_prev_distance")))
     ctx.ob("FRM", site, "epsilon = |distance - previous distance| [%s]" % cname, bool(ok), q.short(ce[0].value, 120) if ce else "", ce[0] if ce else None)
     if ce:
@@ -487,7 +487,7 @@ def logs(ctx, cname):
                q.sub(v, const("Epsilons")) == _final_of(tr, fi[0], "feature_epsilons"), q.short(q.sub(v, const("Epsilons")), 80), fi[0])
     # the batch analysed is the validated batch with the detector's column names
     xv = q.validated(tr, 0)
-    bh = [e for e in q.find_calls(tr, HDMQ + "._build_histograms") if e.func.qualname == site]
+    bh = [e for e in q.find_calls(tr, HDMQ + "._build_histograms") if q.stack_has(e, site)]
     if xv is not None and len(bh) == 2:
         want = atom(("call", "pandas.DataFrame", (xv,), (("columns", A("_input_cols")),)))
         got = bh[1].args[0]
